@@ -23,8 +23,8 @@ fn main() {
         "types" => {}
         "bytes" => suite_bytes::run(&reg, &suite_bytes::Cfg { seed, thorough, only, from, scale }, &mut out),
         "emplace" => suite_emplace::run(&reg, &gen_types::defaults(), &suite_emplace::Cfg { seed, thorough, only, from, scale }, &mut out),
-        "io" => suite_io_gen::run(&reg, &suite_io_gen::Cfg { seed, thorough, only, from, scale, which: "blocking".into() }, &mut out),
-        "aio" => suite_io_gen::run(&reg, &suite_io_gen::Cfg { seed, thorough, only, from, scale, which: "async".into() }, &mut out),
+        "io" => suite_io_gen::run(&reg, &gen_types::defaults(), &suite_io_gen::Cfg { seed, thorough, only, from, scale, which: "blocking".into() }, &mut out),
+        "aio" => suite_io_gen::run(&reg, &gen_types::defaults(), &suite_io_gen::Cfg { seed, thorough, only, from, scale, which: "async".into() }, &mut out),
         "portable" => suite_portable::run(&suite_portable::Cfg { seed, thorough }, &mut out),
         "ops" => suite_ops::run(&reg, &suite_ops::Cfg { seed, thorough, only, from, scale }, &mut out),
         "exec" => {
